@@ -347,4 +347,9 @@ add("C22", "shareRange end ignores the extra item", "nifty/cl/utilities.py", "  
 add("C04", "constant operator returns no metric", "nifty/cl/operators/simplify_for_const.py", "            return x.new(self._output, jac, met)\n        return self._output\n\n    def __repr__(self):\n        tgt", "            return x.new(self._output, jac)\n        return self._output\n\n    def __repr__(self):\n        tgt", "R04.8")
 add("C04", "offset only on the metric-free return", "nifty/cl/operators/energy_operators.py", "        if self._offset != 0.:\n            res = res + self._offset\n        if not x.want_metric or self._ic_samp is None:\n            return res\n", "        if not x.want_metric or self._ic_samp is None:\n            return res if self._offset == 0. else res + self._offset\n", "R04.7")
 add("C04", "optional transformation dereferenced unguarded", "nifty/cl/operators/jax_operator.py", "        trafo = None\n        if self._trafo is not None:\n            _, trafo = self._trafo.simplify_for_constant_input(c_inp)\n", "        _, trafo = self._trafo.simplify_for_constant_input(c_inp)\n", "R04.9")
+add("C32", "reflected U-turn index without the lower bound", "nifty/re/hmc.py", "| is_euclidean_uturn(tree_index_get(S, k), z),", "| is_euclidean_uturn(tree_index_get(S, i_max_incl - k), z),", "R32.7")
+add("C32", "turning sub-tree merged at the depth limit", "nifty/re/hmc.py", "            pred=new_subtree.turning | new_subtree.diverging,", "            pred=(new_subtree.turning & (current_tree.depth < max_tree_depth)) | new_subtree.diverging,", "R32.6")
+add("C32", "NaN weight difference accepted", "nifty/re/hmc.py", "        transition_probability = jnp.minimum(\n            1.0, jnp.exp(new_subtree.logweight - current_subtree.logweight)\n        )", "        transition_probability = jnp.where(new_subtree.logweight - current_subtree.logweight < 0.0, jnp.exp(new_subtree.logweight - current_subtree.logweight), 1.0)", "R32.8")
+add("C09", "scipy transform overwrites its input", "nifty/cl/ducc_dispatch.py", "    return AnyArray(scipy.fft.ifftn(a._val, axes=axes, workers=_nthreads))", "    return AnyArray(scipy.fft.ifftn(a._val, axes=axes, workers=_nthreads, overwrite_x=True))", "R09.10")
+add("C09", "codomain refused only if every axis mismatches", "nifty/cl/domains/rg_space.py", "        if not np.all(abs(np.array(self.shape) *\n                          np.array(self.distances) *\n                          np.array(codomain.distances)-1) < 1e-7):", "        if np.all(abs(np.array(self.shape) *\n                          np.array(self.distances) *\n                          np.array(codomain.distances)-1) >= 1e-7):", "R09.11")
 VARIANTS = V
